@@ -228,13 +228,14 @@ def unfocus_fixed_sampling_backprop(wavefunction, input_dx, prop_dist,
     if not isinstance(output_samples, Iterable):
         output_samples = (output_samples, output_samples)
 
-    # one Q per axis: Q_axis = (lambda f / (width_axis * input_dx)) * output_samples_axis / input_samples_axis
-    dias = [output_dx * s for s in output_samples]
+    # the same per-axis Q as the forward call: here wavefunction has the shape of the forward OUTPUT and
+    # output_samples is the shape of the forward INPUT
+    dias = [output_dx * s for s in wavefunction.shape]
     Q = tuple(Q_for_sampling(input_diameter=dia,
                              prop_dist=prop_dist,
                              wavelength=wavelength,
                              output_dx=input_dx) / (s_in / s_out)  # not a typo
-              for dia, s_in, s_out in zip(dias, wavefunction.shape, output_samples))
+              for dia, s_in, s_out in zip(dias, output_samples, wavefunction.shape))
 
     if shift[0] != 0 or shift[1] != 0:
         shift = (shift[0]/output_dx, shift[1]/output_dx)
